@@ -22,7 +22,8 @@ func init() {
 			"R4 the listing yields only the stripped result of strings.CutPrefix(name, prefix+\"/\") under ok == true (or passes errors through); " +
 			"R5 ctxMap rewrites the Resource of repository-typed scopes with nameMap and installs the rewritten scope in the returned context. " +
 			"R0b the wrapper built by Sub holds exactly the registry and the prefix it was given. " +
-			"R6 the Repositories iterator is re-runnable (as C05.R6).",
+			"R6 the Repositories iterator is re-runnable (as C05.R6). " +
+			"R7 (shared with C09.R1c) the scope constructor that mapScopes relies on computes action bits only for scopes that passed isKnown().",
 		NotDecided: "equality of behaviour with the restricted registry on values (e.g. which items a listing contains) is not decided; R2's confinement clause (no name escapes the prefix) is decided for the code as written.",
 		Technique:  "static analysis: SSA argument provenance per Interface method, backward slice of the name-mapping function, dominance of the CutPrefix ok-test",
 	})
@@ -52,6 +53,7 @@ func runC13(c *core.Ctx) {
 	T := ts[0]
 	subConstructorStoresParams(c, "C13.R0")
 	listingIteratorsRerunnable(c, "C13.R6", []string{"ocifilter"}, 1)
+	knownActionOnlyForKnownScopes(c, "C13.R7")
 	c.Note("wrapper type: %s", T)
 	// helper roles by signature
 	var nameMap, ctxMap *ssa.Function
